@@ -1404,8 +1404,10 @@ class BaseImage(metaclass=ImageMeta):
             else:  # middle
                 top = (height - lines) // 2
                 bottom = height - lines - top
-            top = f"{' ' * width}\n" * top
-            bottom = f"\n{' ' * width}" * bottom
+            # Padding lines must be as wide as the (horizontally padded) render
+            padded_width = max(width, cols)
+            top = f"{' ' * padded_width}\n" * top
+            bottom = f"\n{' ' * padded_width}" * bottom
         else:
             top = bottom = ""
 
